@@ -623,7 +623,42 @@ def countdown_steps(delay, dt, cap=100000):
     return n
 
 
-def gen_lean(f):
+def steps_via_scheduler(delay, dt, cap):
+    """How many steps the real SimultaneousScheduler.run_step keeps a DelayedEvent(delay) back (the event is handled in
+    step kept+1), observed on a model with this dt — the path on which the scheduler passes whatever it knows about the
+    run (dt, steps per round, …) to handle_delayed_event. None: not handled within `cap` steps."""
+    sim = Sim(dt)
+    sim.m.create_agent("a", {})
+    sim.send(0, 0, delay, [])
+    for k in range(cap):
+        sim.step_no += 1
+        sim.m.scheduler.run_step(sim.m, 0, k, None, True)
+        if sim.handled:
+            return sim.handled[0][0] - 1
+    return None
+
+
+ROW_DTS = ["0.3", "0.4", "0.6", "0.75", "0.15", "1.5", "2", "2.5", "0.1", "0.25", "0.05", "1"]
+ROW_DELAYS = ["1", "2", "0.3", "0.5", "0.6", "0.75", "1.5", "3", "0.9", "1.2", "4", "0.45"]
+
+
+def probe_rows():
+    """(delay, dt, probed step count) for the kernel-decided lattice of Gen/C11.lean"""
+    rows = []
+    for dt in ROW_DTS:
+        for delay in ROW_DELAYS + [str(Fraction(dt) * 2), str(float(Fraction(dt) * 7 / 2))]:
+            if "/" in delay:
+                delay = str(float(Fraction(delay)))
+            e = exact_steps(delay, dt)
+            try:
+                got = steps_via_scheduler(delay, dt, e + 3)
+            except Exception:
+                got = None
+            rows.append((delay, dt, got))
+    return rows
+
+
+def gen_lean(f, rows=()):
     good = all(f.values())
     b = lambda x: "true" if x else "false"
     body = ("theorem model_applies : facts.good = true := by decide\n" if good else
@@ -653,11 +688,33 @@ def gen_lean(f):
             "theorem holds_float_countdown : type_of% @floatKeep_exact := @floatKeep_exact\n#print axioms holds_float_countdown\n"
             "theorem float_budget_doubles : type_of% stepBudget_double_arith := stepBudget_double_arith\n#print axioms float_budget_doubles\n"
             "theorem holds_two_models : type_of% @C11_two_models := @C11_two_models\n#print axioms holds_two_models\n"
+            + rows_lean(rows) +
             "end Bptk.C11.Gen\n")
+
+
+def rows_lean(rows):
+    """the probed (dt, delay) rows and the kernel-decided obligation that each equals ⌈delay/dt⌉ (ℚ: stepRow_ok_ceil)"""
+    if not rows:
+        return ""
+    def row(delay, dt, got):
+        d, t = Fraction(delay), Fraction(dt)
+        return f"⟨{d.numerator}, {d.denominator}, {t.numerator}, {t.denominator}, {got if got is not None else 10 ** 9}⟩"
+    body = "def probedRows : List StepRow := [\n  " + ",\n  ".join(row(*r) for r in rows) + "]\n"
+    good = all(got == exact_steps(delay, dt) for delay, dt, got in rows)
+    if good:
+        body += ("/-- every probed step count of the real scheduler equals ⌈delay/dt⌉ (incl. dts whose reciprocal is no whole number) -/\n"
+                 "theorem probed_rows_exact : probedRows.all StepRow.ok = true := by decide\n#print axioms probed_rows_exact\n")
+    else:
+        body += ("/-- some probed step count differs from ⌈delay/dt⌉ -/\n"
+                 "theorem probed_rows_differ : probedRows.all StepRow.ok = false := by decide\n#print axioms probed_rows_differ\n"
+                 "theorem steps_per_round_mechanism : type_of% C11_witness_steps_per_round := C11_witness_steps_per_round\n")
+    return body
 
 
 # ------------------------------------------------------------------ generators
 DTS = ["1", "0.5", "0.25", "0.2", "0.1", "0.05"]
+DTS_ODD = ["0.3", "0.4", "0.6", "0.75", "0.15", "1.5", "2", "2.5"]      # wave 9: 1/dt is not a whole number; dt > 1
+DTS_ALL = DTS + DTS_ODD
 
 
 def delays_for(dt):
@@ -697,7 +754,7 @@ def rand_history(rng, dt):
     spr = round(1 / float(dt))
     for _ in range(rng.range(6, 45)):
         r = rng.below(20)
-        if r == 19 and rng.chance(1, 3):           # wave 7: a whole Model.run()
+        if r == 19 and spr > 0 and rng.chance(1, 3):           # wave 7: a whole Model.run() (dt >= 2: run() has no steps)
             op = ["run", [act_script() for _ in range(spr * rng.range(1, 2))]]
             ops.append(op)
             continue
@@ -949,7 +1006,7 @@ X_WITNESSES = [
 X_WITNESS_EXPECT = ["3:[0]", "3:[1, 0]", "1:[0] 2:[1] 3:[2]", ""]      # handler log "step:[seqs]" as the theorems state it
 
 
-def small_histories(L, wide=False):
+def small_histories(L, wide=False, flush=4):
     """All histories of length L over a small alphabet instantiated on the live population, each followed by
     flushing steps. `wide`: the alphabet also has reset and two steps whose act() changes the population."""
     out = []
@@ -969,7 +1026,7 @@ def small_histories(L, wide=False):
         return ops
     def rec(prefix, sh, depth):
         if depth == L:
-            out.append(prefix + [["step", {}]] * 4)
+            out.append(prefix + [["step", {}]] * flush)
             return
         for op in alphabet(sh):
             s2 = Shadow(); s2.live = [list(a) for a in sh.live]; s2.next = sh.next
@@ -1037,7 +1094,10 @@ def run(chk):
     quiet_bptk_logging()
     facts = probe()
     chk.notes["facts"] = facts
-    ok, why = chk.prove(gen_lean(facts))
+    rows = probe_rows()
+    chk.notes["probed_step_rows"] = {"rows": len(rows), "dts": ROW_DTS,
+                                      "differ": [r for r in rows if r[2] != exact_steps(r[0], r[1])][:10]}
+    ok, why = chk.prove(gen_lean(facts, rows))
     chk.cov["trusted_base"] = [
         "Lean 4.33 kernel; axioms propext, Classical.choice, Quot.sound (audited per run via #print axioms)",
         "hand-written model lean/Bptk/Core/C11.lean of enqueue_event/broadcast_event/random_events, SimultaneousScheduler.run_step "
@@ -1078,12 +1138,14 @@ def run(chk):
     Lw = 3 if chk.quick else 4
     for ops in small_histories(Lw, wide=True):
         cases.append(("1", ops, "exh", "base"))
+    for ops in small_histories(2 if chk.quick else 3, flush=8):       # wave 9: 1/dt no whole number (delay 1 = 3 steps, 2 = 5)
+        cases.append(("0.4", ops, "exh", "base"))
     n_exh = len(cases) - n_corpus
     for w in X_WITNESSES:
         cases.append(("1", w, "xwitness", "x"))
     nrand = 400 if chk.quick else 20000
     for i in range(nrand):
-        dt = DTS[i % len(DTS)]
+        dt = DTS_ALL[(i // 8 * 3 + i) % len(DTS_ALL)]
         j = i % 8
         if j in (0, 1, 2):
             cases.append((dt, rand_history(rng, dt), "rand", "base"))
@@ -1095,13 +1157,13 @@ def run(chk):
             cases.append((dt, rand_xhistory(rng, dt), "rand-x", "x"))
     for i in range(nrand // 20):                   # wave 7: two models alive at once, operations interleaved
         for _ in range(2):
-            dt = rng.choice(DTS)
+            dt = rng.choice(DTS_ALL)
             cases.append((dt, rand_history(rng, dt) if rng.chance(2, 3) else reconf_history(rng, dt), "rand-pair", "base"))
     chk.cov["rule"] = (f"all histories of length {L} (after create a, create b; followed by 4 flushing steps) over the alphabet {{create, step, "
                        "step with two sends from act(), delete oldest, configure (to the same count), send to newest undelayed / delay 1 / oldest "
                        f"delay 2 / to an id that does not exist}}, all of length {Lw} over that alphabet plus {{reset, a step whose act() creates an "
                        "agent, deletes the newest and sends to both, a step whose act() reconfigures to the same count, broadcasts and sends}} "
-                       f"({n_exh} histories, dt 1); the 4 kernel-checked extended witnesses; {nrand} seeded random histories over dt in {DTS}: 3/8 plain "
+                       f"({n_exh} histories, dt 1); the 4 kernel-checked extended witnesses; {nrand} seeded random histories over dt in {DTS_ALL}: 3/8 plain "
                        "(sends between steps, from act(), from handlers, broadcasts, receivers alive/deleted/never created, delays None/0/"
                        "multiples and non-multiples of dt), 2/8 with population changes DURING steps (create/delete/configure/reset/broadcast "
                        "from act() and from handlers, agents created in a step acting in it), 1/8 reconfiguration to the same count / reset + "
@@ -1161,7 +1223,7 @@ def run(chk):
     chk.notes["same_event_object_enqueued_twice"] = probe_same_object_twice()
     # ---- delay -> steps lattice: Lean stepsOf vs exact fractions vs the real countdown
     lat = []
-    for dt in DTS + ["0.125", "0.04", "0.025", "0.02", "0.01", "0.3", "0.15", "0.7", "2", "1.5"]:
+    for dt in DTS + ["0.125", "0.04", "0.025", "0.02", "0.01", "0.3", "0.15", "0.7", "2", "1.5", "0.4", "0.6", "0.75", "2.5"]:
         d = Fraction(dt)
         for kk in range(0, 41 if chk.quick else 201):
             lat.append((str(float(kk * d)) if "." in dt else str(kk * int(dt)), dt))
@@ -1180,6 +1242,9 @@ def run(chk):
         e = exact_steps(a, b)
         lat_real.append(str(e))
         c = first_eval(a, b) if e > 2000 else countdown_steps(a, b)
+        if c == e and e <= 40:                       # wave 9: the same pair through the real scheduler's run_step
+            c = steps_via_scheduler(a, b, e + 3)
+            c = 10 ** 9 if c is None else c
         if c != e and lat_bad is None:
             lat_bad = (a, b, c, e)
     chk.cov["delay_lattice_pairs"] = len(lat)
